@@ -11,6 +11,58 @@ pub static HEARTBEAT: [AtomicU64; 64] = [const { AtomicU64::new(0) }; 64];
 thread_local! {
     pub static WORKER_SLOT: std::cell::Cell<usize> = const { std::cell::Cell::new(0) };
 }
+/// The run each worker is executing right now, as a ready-made replay file (JSON): if the PROCESS dies under a run — a
+/// double panic, an explicit abort, a fatal signal inside the library — the fatal-signal handler writes this file, prints the
+/// VIOLATION line and exits with status 1. Threads the simulator starts on behalf of a run (party processes, caller
+/// threads) inherit their worker's slot.
+pub static INFLIGHT: [std::sync::Mutex<Option<(String, String, String)>>; 64] = [const { std::sync::Mutex::new(None) }; 64];
+pub fn set_inflight(v: Option<(String, String, String)>) {
+    let s = WORKER_SLOT.with(|c| c.get()) % 64;
+    if let Ok(mut g) = INFLIGHT[s].lock() {
+        *g = v;
+    }
+}
+pub fn worker_slot() -> usize {
+    WORKER_SLOT.try_with(|c| c.get()).unwrap_or(0)
+}
+pub fn set_worker_slot(s: usize) {
+    let _ = WORKER_SLOT.try_with(|c| c.set(s));
+}
+extern "C" {
+    fn _exit(code: i32) -> !;
+    fn sigaction(sig: i32, act: *const FatalSigAction, old: *mut FatalSigAction) -> i32;
+}
+#[repr(C)]
+struct FatalSigAction {
+    handler: usize,
+    mask: [u64; 16],
+    flags: i32,
+    restorer: usize,
+}
+extern "C" fn on_fatal(sig: i32) {
+    // the process is lost; say which run killed it, in the format of any other violation
+    let slot = worker_slot() % 64;
+    let mine = INFLIGHT[slot].try_lock().ok().and_then(|g| g.clone());
+    let pick = mine.or_else(|| INFLIGHT.iter().find_map(|m| m.try_lock().ok().and_then(|g| g.clone())));
+    if let Some((property, path, json)) = pick {
+        let _ = std::fs::write(&path, json);
+        println!("VIOLATION property={} replay={}", property, path);
+        println!("  invariant=process-abort detail=the process was killed by signal {} while this run was executing (abort, double panic, or a fatal fault inside a library call)", sig);
+        use std::io::Write;
+        let _ = std::io::stdout().flush();
+        unsafe { _exit(1) }
+    }
+    unsafe { _exit(2) }
+}
+pub fn install_fatal_handler() {
+    for sig in [6, 11, 7, 4, 8] {
+        let act = FatalSigAction { handler: on_fatal as *const () as usize, mask: [0; 16], flags: 0, restorer: 0 };
+        unsafe {
+            sigaction(sig, &act, std::ptr::null_mut());
+        }
+    }
+}
+
 pub fn beat() {
     let s = WORKER_SLOT.with(|c| c.get());
     HEARTBEAT[s % 64].fetch_add(1, Ordering::Relaxed);
